@@ -46,6 +46,9 @@ type c15Action struct {
 	Eps  []int  `json:"eps"` // remove: endpoints taken out of the server list
 	// "drain, then remove": before the removal (requests already in flight) the endpoints of Unhealthy
 	// start failing their probes, then one sync marks the endpoints of Drain disabled:true
+	// remove: the new server list also contains a server whose URL cannot be turned into a client
+	// ("first" / "last" position): the sync handler fails on it; the removal must happen all the same
+	Bad       string `json:"bad"`
 	Drain     []int `json:"drain"`
 	Unhealthy []int `json:"unhealthy"`
 }
@@ -416,7 +419,15 @@ func runScenario(c c15Case) interface{} {
 		for _, e := range c.Action.Eps {
 			skip[e] = true
 		}
-		must(g.apply(object(c.Action.Cl, skip, drainMap)))
+		o := object(c.Action.Cl, skip, drainMap)
+		bad := proxyv1alpha1.UpstreamClusterServer{Endpoint: "http://[::1"}
+		switch c.Action.Bad {
+		case "first":
+			o.Spec.Servers = append([]proxyv1alpha1.UpstreamClusterServer{bad}, o.Spec.Servers...)
+		case "last":
+			o.Spec.Servers = append(o.Spec.Servers, bad)
+		}
+		_ = g.apply(o)
 	}
 	t0 := time.Now()
 	obs := c15Obs{ActionMs: int(t0.Sub(tA) / time.Millisecond)}
